@@ -170,7 +170,13 @@ def g_graph(rng, scale=None):
     sc = {"none": None, "zero": 0, "zerof": 0.0}.get(scale, "num")
     if sc == "num":
         sc = g_target(rng)
-    return {"coords": coords, "fields": fields, "scale": sc}
+    gr = {"coords": coords, "fields": fields, "scale": sc}
+    if len(fields) >= 2 and rng.random() < 0.3:
+        # the same list object given for two fields (symmetric errors passed as low and
+        # high error, a y = x graph made from one list, errors equal to the values)
+        pairs = [[i, j] for i in range(len(fields)) for j in range(i + 1, len(fields))]
+        gr["alias"] = rng.sample(pairs, min(len(pairs), rng.choice([1, 1, 2])))
+    return gr
 
 
 def g_target(rng):
@@ -252,8 +258,10 @@ def build_hist(hr, lena):
 
 def build_graph(gr, lena):
     import copy
-    return lena.structures.graph(copy.deepcopy(gr["coords"]), field_names=tuple(gr["fields"]),
-                                 scale=gr["scale"])
+    coords = copy.deepcopy(gr["coords"])
+    for i, j in gr.get("alias", []):
+        coords[j] = coords[i]
+    return lena.structures.graph(coords, field_names=tuple(gr["fields"]), scale=gr["scale"])
 
 
 def cells_of(h, lena):
